@@ -10,9 +10,10 @@ COMPONENTS_STUBBED = l0common.COMPONENTS_STUBBED
 ASSUMPTIONS = [
     'RefMesh (integer rectangles + geometric neighbours + least-fixpoint '
     'closure) is the definition of "smallest 1-irregular refinement"',
-    'Doerfler and grading are opaque here: only tiling, refinement-only, '
-    '1-irregularity and bookkeeping are judged after them (their minimality '
-    'is C06/C19)', 'seeded search, not exhaustive enumeration'
+    'after a Doerfler step the leaf set must equal the reference closure of '
+    'the exactly marked set (same oracle as C06, ambiguous vectors skipped); '
+    'grading is opaque here: only tiling, refinement-only, 1-irregularity '
+    'and bookkeeping are judged after it (C19)', 'seeded search, not exhaustive enumeration'
 ]
 RULE = ('seeded operation histories (bisect time/space/both, uniform, '
         'uniform_space, Doerfler iso/aniso, grading) on seeded initial meshes '
@@ -37,10 +38,14 @@ TIERS = {
 }
 MODE = {
     'compare': True,
+    # marking-driven refinement: "smallest refinement containing the
+    # requested bisections" is judged with the exact marking model (the same
+    # oracle as C06); grading stays opaque
+    'dorfler_oracle': True,
     'post': ['floats', 'bookkeeping', 'gmsh'],
 }
 OWN = {
-    'tiling': 1, 'minimality': 1, 'coarsened': 1, 'irregular': 1,
+    'tiling': 1, 'minimality': 1, 'dorfler-result': 1, 'coarsened': 1, 'irregular': 1,
     'geometry': 1, 'levels': 1, 'bookkeeping': 1, 'vertices': 1, 'gmsh': 1,
     'nontermination': 1,
     # an exception inside a plain bisection / uniform refinement breaks the
@@ -64,6 +69,7 @@ def shrink(run):
 
 
 sample_of = l0common.sample_of
+preload = l0common.preload
 
 LEVEL_TEXT = ('Seeded search over operation histories and initial '
               'configurations with the real mesh checked against an '
